@@ -75,6 +75,10 @@ pub fn render(spec: &TextSpec) -> String {
     if spec.spdx {
         s.push_str("// SPDX-License-Identifier: MIT\n");
     }
+    if spec.pragma % 3 == 1 && spec.spdx {
+        // non-ASCII bytes in a comment: still plain Solidity
+        s.push_str("// \u{8a2d}\u{8a08}\u{66f8} \u{2014} na\u{ef}ve \u{1f600}\n");
+    }
     s.push_str(&format!("pragma solidity {};\n", PRAGMAS[spec.pragma % PRAGMAS.len()]));
     let mut uniq = 0usize;
     for (ci, frags) in spec.contracts.iter().enumerate() {
